@@ -27,6 +27,8 @@ type ResumerSpec struct {
 	Chunks  []int  `json:"chunks"` // events consumed before each crash
 	DelayMs int    `json:"delay_ms,omitempty"`
 	StartMs int    `json:"start_ms,omitempty"`
+	// Filtered: the watch carries the case's label selector (kind/agg only)
+	Filtered bool `json:"filtered,omitempty"`
 }
 
 // ForgedSpec is a malformed bookmark probe.
@@ -57,6 +59,10 @@ type C12Case struct {
 	Tails    []TailSpec    `json:"tails"`
 	Late     []WriteOp     `json:"late"` // writes after the probes were established
 	ProbeAll bool          `json:"probe_all"`
+	// Filter, if set, adds a label-filtered reference watcher, filtered resume probes from each of its bookmarks and
+	// filtered resumers: synthetic Created/Destroyed events (resources moving into/out of the selection) must carry
+	// usable bookmarks too.
+	Filter *Selector `json:"filter,omitempty"`
 }
 
 type c12 struct{}
@@ -154,6 +160,34 @@ func (c12) Gen(seed uint64, tier string) Case {
 	}
 	c.Late = genWriteOps(r, 9, r.Intn(5), []string{TypeA}, nids, &uniq, true)
 	c.ProbeAll = true
+	if r.Bool(0.6) {
+		sel := []Selector{
+			{Queries: [][]SelTerm{{{Key: "k", Op: "exists"}}}},
+			{Queries: [][]SelTerm{{{Key: "k", Op: "equal", Values: []string{"1"}}}}},
+			{Queries: [][]SelTerm{{{Key: "k", Op: "in", Values: []string{"0", "2"}}}}},
+			{Queries: [][]SelTerm{{{Key: "k", Op: "equal", Values: []string{"0"}, Invert: true}}}},
+			{Queries: [][]SelTerm{{{Key: "k", Op: "ltnum", Values: []string{"2"}}}}},
+		}[r.Intn(5)]
+		c.Filter = &sel
+		// more label churn, so that resources move into and out of the selection
+		for i := range c.Writers {
+			for j := range c.Writers[i] {
+				op := &c.Writers[i][j]
+				if op.Kind == "update" && op.Mut == "val" && r.Bool(0.4) {
+					if r.Bool(0.25) {
+						op.Mut = "unlabel:k"
+					} else {
+						op.Mut = fmt.Sprintf("label:k=%d", r.Intn(3))
+					}
+				}
+			}
+		}
+		for i := range c.Resumers {
+			if c.Resumers[i].Kind != "single" && r.Bool(0.5) {
+				c.Resumers[i].Filtered = true
+			}
+		}
+	}
 	c.Policy = genPolicy(r, prefixes)
 	return c
 }
@@ -179,6 +213,14 @@ func (c12) Shrink(cs Case) []Case {
 	if c.ProbeAll {
 		n := cloneJSON(c)
 		n.ProbeAll = false
+		out = append(out, n)
+	}
+	if c.Filter != nil {
+		n := cloneJSON(c)
+		n.Filter = nil
+		for i := range n.Resumers {
+			n.Resumers[i].Filtered = false
+		}
 		out = append(out, n)
 	}
 	if len(c.Late) > 0 {
@@ -249,6 +291,24 @@ type probe struct {
 	forged   *ForgedSpec
 	tail     *TailSpec
 	refIdx   int
+	filtered bool
+}
+
+// matchEvents compares delivered data events with the expected ones (type, value, old value, bookmark = log position).
+func matchEvents(data []EvRec, exp []expectedEvent) string {
+	for j := 0; j < len(data) && j < len(exp); j++ {
+		e, x := data[j], exp[j]
+		if e.Type != x.Type || e.Snap != x.Snap || e.HasOld != x.HasOld || (x.HasOld && e.Old != x.Old) {
+			return fmt.Sprintf("event %d is %s, the log says %s(%s@%s)", j, e.String(), x.Type, x.Snap.ID, x.Snap.Version)
+		}
+		if bp, ok := bookmarkPos(e.Bookmark); !ok || int(bp) != x.LogIdx {
+			return fmt.Sprintf("event %d (%s) carries bookmark %x, not the bookmark of log position %d", j, e.String(), e.Bookmark, x.LogIdx)
+		}
+	}
+	if len(data) != len(exp) {
+		return fmt.Sprintf("delivered %d events, the filtered log has %d: got %s", len(data), len(exp), renderEvents(data))
+	}
+	return ""
 }
 
 func bookmarkPos(b []byte) (int64, bool) {
@@ -281,6 +341,13 @@ func (c12) Run(t *testing.T, cs Case, trace bool) *Outcome {
 		// reference watchers: kind with bootstrap bookmark (so even an empty log yields a bookmark)
 		ref := &WatchRec{Spec: WatchSpec{Kind: "kind", Type: TypeA, BootstrapBookmark: true}, Name: "ref"}
 		s.Spawn("ref", func() { runWatcher(ctx, env, ref, nil, nil) })
+		var fref *WatchRec
+		var fopts []state.WatchKindOption
+		if c.Filter != nil {
+			fopts = c.Filter.watchOpts()
+			fref = &WatchRec{Spec: WatchSpec{Kind: "kind", Type: TypeA, BootstrapBookmark: true}, Name: "fref"}
+			s.Spawn("fref", func() { runWatcher(ctx, env, fref, fopts, nil) })
+		}
 		s.Settle(1000) // reference is established before anything is written
 		for i, ops := range c.Writers {
 			wr := &writer{st: w.Core, acks: &acks, ev: &ev, out: out}
@@ -315,6 +382,9 @@ func (c12) Run(t *testing.T, cs Case, trace bool) *Outcome {
 					}
 					var ko []state.WatchKindOption
 					var so []state.WatchOption
+					if rs.Filtered && c.Filter != nil {
+						ko = append(ko, c.Filter.watchOpts()...)
+					}
 					if round == 0 {
 						spec.StartMs = rs.StartMs
 						if rs.Kind != "single" {
@@ -395,6 +465,28 @@ func (c12) Run(t *testing.T, cs Case, trace bool) *Outcome {
 			}
 		}
 		guaranteedFrom := n1 - effInitial(c.Hist) + c.Hist.effGap() // bookmarks of events >= this index must be accepted
+		// the filtered reference stream: the selector-filtered log (moves into/out of the selection included), every
+		// event with the bookmark of the commit that produced it
+		var frefData []EvRec
+		frefErrored := false
+		if fref != nil {
+			for _, e := range fref.Events {
+				switch e.Type {
+				case "Created", "Updated", "Destroyed":
+					frefData = append(frefData, e)
+				case "Errored":
+					frefErrored = true
+				}
+			}
+			_, fexp, movedIn, movedOut := expectedFiltered(log, 0, *c.Filter)
+			if !frefErrored {
+				if why := matchEvents(frefData, fexp); why != "" {
+					out.violate("C12/filtered-stream", "filtered-stream", "label-filtered watch (%s): %s\nlog: %s", c.Filter.String(), why, renderLog(log))
+					return
+				}
+				out.probeN("filtered-moves", movedIn+movedOut)
+			}
+		}
 		// ---- phase 2: probes on the quiescent store
 		var probes []*probe
 		addProbe := func(p *probe, ko []state.WatchKindOption, so []state.WatchOption) {
@@ -417,6 +509,23 @@ func (c12) Run(t *testing.T, cs Case, trace bool) *Outcome {
 						p.rec.Spec.ID = e.Snap.ID
 					}
 					addProbe(p, []state.WatchKindOption{state.WithKindStartFromBookmark(e.Bookmark)}, []state.WatchOption{state.WithStartFromBookmark(e.Bookmark)})
+				}
+			}
+		}
+		if fref != nil && !frefErrored {
+			for i, e := range frefData {
+				pos, ok := bookmarkPos(e.Bookmark)
+				if !ok {
+					continue // reported above
+				}
+				kinds := []string{"kind"}
+				if i%3 == 0 {
+					kinds = append(kinds, "agg")
+				}
+				for _, k := range kinds {
+					p := &probe{name: fmt.Sprintf("fprobe-%s-%d", k, i), bookmark: e.Bookmark, wantFrom: int(pos) + 1, mustOK: int(pos) >= guaranteedFrom, mayOK: true, refIdx: int(pos), filtered: true}
+					p.rec = &WatchRec{Spec: WatchSpec{Kind: k, Type: TypeA}, Name: p.name}
+					addProbe(p, append(append([]state.WatchKindOption{}, fopts...), state.WithKindStartFromBookmark(e.Bookmark)), nil)
 				}
 			}
 		}
@@ -506,9 +615,17 @@ func (c12) Run(t *testing.T, cs Case, trace bool) *Outcome {
 		log = collectionLog(w.Log, "ns1", TypeA)
 		_, expAll := expectedFrom(log, 0, "")
 		// expected per-id streams
+		var expFiltered []expectedEvent
+		if c.Filter != nil {
+			_, expFiltered, _, _ = expectedFiltered(log, 0, *c.Filter)
+		}
 		matchSuffix := func(p *probe, data []EvRec, from int, id string) string {
 			var exp []expectedEvent
-			for _, x := range expAll {
+			src := expAll
+			if p != nil && p.filtered {
+				src = expFiltered
+			}
+			for _, x := range src {
 				if x.LogIdx >= from && (id == "" || x.Snap.ID == id) {
 					exp = append(exp, x)
 				}
@@ -677,7 +794,11 @@ func (c12) Run(t *testing.T, cs Case, trace bool) *Outcome {
 			if rr.firstFrom >= 0 {
 				from = rr.firstFrom
 			}
-			if why := matchSuffix(nil, rr.events, from, id); why != "" {
+			var fp *probe
+			if rr.spec.Filtered && c.Filter != nil {
+				fp = &probe{filtered: true}
+			}
+			if why := matchSuffix(fp, rr.events, from, id); why != "" {
 				out.violate("C12/resume-concatenation", "resume-concat:"+rr.spec.Kind, "%s (%+v, %d resumes): the interrupted-and-resumed stream does not concatenate to the uninterrupted one from log position %d: %s\nlog: %s", rr.name, rr.spec, rr.resumes, from, why, renderLog(log))
 			}
 		}
